@@ -73,6 +73,7 @@ class Profile(dict):
         empty_optional=0.0,    # probability that a present optional attribute is ''
         pos_pool=None,
         blank_text=0.08,
+        long_text=0.004,       # probability of a text longer than the XML parser's buffer (8 KiB)
         relations=True,
         lexfile=True,
         dup_rel=0.1,
@@ -109,6 +110,10 @@ class Gen:
         r = self.r
         if r.random() < self.p['blank_text']:
             return ''
+        if r.random() < self.p['long_text']:
+            unit = r.choice(['lorem ipsum dolor', 'désolé çà et là', '日本語のテキスト', 'a&b <c> "d"'])
+            words = [unit + str(i) for i in range(r.choice([600, 1500, 3000]))]
+            return ' '.join(words)
         if r.random() < self.p['hostile']:
             parts = [r.choice(TEXT_HOSTILE) for _ in range(r.choice([1, 2, 3]))]
         else:
